@@ -90,11 +90,21 @@ pub fn corner_sampler(ctx: &Ctx, rep: &mut Report, pid: &str, prop: Prop, r: &mu
         }
         let fs = fields_of(b, r, None);
         let notables: Vec<Vec<u64>> = fs.iter().map(|f| notable_values(f.key, f.width as usize)).collect();
+        // text fields: the trim shapes of C13 (padding runs, order-sensitive tails, blank-then-'@')
+        let texts: Vec<Vec<(String, Vec<u8>)>> = fs.iter().map(|f| if f.prop == 13 && f.width >= 6 && f.width <= 6 * 40 { super::c13::shapes((f.width / 6) as usize, r) } else { Vec::new() }).collect();
         if !fs.iter().any(|f| f.prop == prop) {
             continue;
         }
         for _ in 0..ctx.budget(quick, thorough) {
             let mut bits = fresh(b, r);
+            for (f, sh) in fs.iter().zip(texts.iter()) {
+                if !sh.is_empty() && r.chance(3, 4) {
+                    let (_, chars) = r.pick(sh);
+                    for (i, c) in chars.iter().enumerate() {
+                        bits.put(f.start as usize + 6 * i, 6, *c as u64);
+                    }
+                }
+            }
             for (f, nv) in fs.iter().zip(notables.iter()) {
                 if f.start < 6 || nv.is_empty() {
                     continue;
